@@ -50,6 +50,9 @@ static struct { void* a[4]; } vp_new_pool[12];
 static struct { void* a[8]; } vp_new_pool64[4];
 static struct { void* a[64]; } vp_new_pool512[4];
 u8* _Znwm(u64 n) {
+#ifdef VP_TYPED_NEW
+  { u8* p = VP_TYPED_NEW(n); if (p) return p; }
+#endif
   if (n <= 32) { VP_ASSERT(vp_new_n < 12, "VP bound: operator new beyond the node pool"); return (u8*)&vp_new_pool[vp_new_n++]; }
   if (n <= 64) { VP_ASSERT(vp_new64_n < 4, "VP bound: operator new beyond the 64-byte pool"); return (u8*)&vp_new_pool64[vp_new64_n++]; }
   VP_ASSERT(n <= 512 && vp_new512_n < 4, "VP bound: operator new beyond the 512-byte pool"); return (u8*)&vp_new_pool512[vp_new512_n++]; }
